@@ -1,4 +1,5 @@
 import Deltio.Proto.Wake
+import Deltio.Model.System
 /-
   C12 — Deleting a subscription releases the consumers waiting on it.
   Slice P2 with the deletion signal: `delete` = DeleteEnd (deletion signal completed, all Notify
@@ -93,5 +94,38 @@ example :
       some { backlog := 0, permit := false, q := 0, g0 := 0, gp := 0, parked := 0, notif := 0, blk := 0, other := 0,
              deleted := true, ended := 3, silent := 0 } := by
   decide
+
+/-! ### System level -/
+
+/-- C12 (system model): DeleteSubscription ends every StreamingPull open on the subscription with
+    NOT_FOUND — appended to what the stream had already produced — and leaves no stream open on it;
+    streams on other subscriptions are untouched. -/
+theorem C12_delete_ends_streams (sys : Sys) (raw : Bytes) (n : Name) (e : SubEnt)
+    (hp : parseSubName raw = some n) (hf : sys.findSub n = some e) :
+    (∀ s ∈ (sys.rpc (.deleteSub raw)).1.streams, s.sid = e.sid → s.ended = true) ∧
+    (∀ s ∈ sys.streams, s.sid = e.sid → s.ended = false →
+        { s with outbox := s.outbox ++ [.done .notFound], ended := true } ∈ (sys.rpc (.deleteSub raw)).1.streams) ∧
+    (∀ s ∈ sys.streams, s.sid ≠ e.sid → s ∈ (sys.rpc (.deleteSub raw)).1.streams) := by
+  simp only [Sys.rpc, hp, hf]
+  refine ⟨?_, ?_, ?_⟩
+  · intro s hs hsid
+    simp only [List.mem_map] at hs
+    obtain ⟨s0, _, rfl⟩ := hs
+    by_cases hc : (s0.sid == e.sid && !s0.ended) = true
+    · simp [hc]
+    · simp only [hc, Bool.false_eq_true, ↓reduceIte] at hsid ⊢
+      have : (s0.sid == e.sid) = true := by simp [hsid]
+      simp only [this, Bool.true_and, Bool.not_eq_true', Bool.not_eq_false] at hc
+      exact hc
+  · intro s hs hsid hend
+    simp only [List.mem_map]
+    refine ⟨s, hs, ?_⟩
+    have : (s.sid == e.sid && !s.ended) = true := by simp [hsid, hend]
+    simp [this]
+  · intro s hs hne
+    simp only [List.mem_map]
+    refine ⟨s, hs, ?_⟩
+    have : (s.sid == e.sid && !s.ended) = false := by simp [hne]
+    simp [this]
 
 end Deltio
